@@ -3,15 +3,17 @@
 PROPS = {
     "C08": dict(
         mc=["MC_Header"],
-        topic="hdr",
-        rules=["HdrFields", "FlagAlgebra"],
-        shards=8,
+        runs=[dict(topic="hdr", shards=8),
+              dict(topic="packet", gen=[dict(module="Gen_Packet", cfg="Gen_Packet.cfg", out="packet_cases.ndjson",
+                  simulate=dict(quick="num=800", thorough="num=15000", depth=80))], shards=12)],
+        rules=["HdrFields", "FlagAlgebra", "ApiStep"],
     ),
     "C01": dict(
         mc=["MC_NameWire"],
         never_ok=["OOBRead"],
         gen=[dict(module="Gen_RData", cfg="Gen_RData.cfg", cfg_thorough="Gen_RData_thorough.cfg", out="rdata_cases.ndjson"),
-             dict(module="Gen_Framing", cfg="Gen_Framing.cfg", cfg_thorough="Gen_Framing_thorough.cfg", out="framing_cases.ndjson")],
+             dict(module="Gen_Framing", cfg="Gen_Framing.cfg", cfg_thorough="Gen_Framing_thorough.cfg", out="framing_cases.ndjson"),
+             dict(module="Gen_Edns", cfg="Gen_Edns.cfg", out="edns_cases.ndjson")],
         topic="hostile",
         rules=["NoPanic", "NoHang", "HeapBound", "PeekTotal"],
         shards=14,
@@ -42,7 +44,8 @@ PROPS = {
         rules=["NoPanic", "SinkErr", "SinkSame", "BuildOk", "PlainCanonical", "CompDecodes"],
     ),
     "C05": dict(
-        gen=[dict(module="Gen_Framing", cfg="Gen_Framing.cfg", cfg_thorough="Gen_Framing_thorough.cfg", out="framing_cases.ndjson")],
+        gen=[dict(module="Gen_Framing", cfg="Gen_Framing.cfg", cfg_thorough="Gen_Framing_thorough.cfg", out="framing_cases.ndjson"),
+             dict(module="Gen_Edns", cfg="Gen_Edns.cfg", out="edns_cases.ndjson")],
         topic="framing",
         rules=["NoPanic", "EnvelopeErr", "ParseEqRef"],
         shards=12,
@@ -163,7 +166,9 @@ _TRUSTED = ("Trusted base: TLC 1.8.0; the Ref layer of the specification (RFC tr
 
 TEXT = {
     "C08": dict(
-        text=("Exhaustive: all 65536 flag words (x id/count variants) are pushed through Packet::parse, the eight "
+        text=("API histories of the builder machine (including histories that start from a parsed message and then "
+              "overwrite opcode / rcode / flags) are replayed on a real Packet: the projection after each call and the "
+              "id / flags word finally written must equal the model's. Exhaustive: all 65536 flag words (x id/count variants) are pushed through Packet::parse, the eight "
               "header_buffer peek functions and re-serialisation of the real crate, all ctor x 128 flag subsets x named "
               "opcodes x named rcodes are built, and all 128x128 flag-set pairs go through set/remove/has; every "
               "observation is judged by TLC against Header.tla (RFC 1035 4.1.1 bit layout) in the trace specification. "
